@@ -56,8 +56,10 @@ def _mcs_worker(args):
     orig_compute = RC2.compute
     oracle = {"n": 0, "bad": []}
 
-    def wrapped(self, wcnf, ignore=[], deadline=None):
-        rec = {"hard": [list(c) for c in wcnf.hard], "soft": [list(c) for c in wcnf.soft], "ignore": list(ignore),
+    def wrapped(self, wcnf, *args, **kw):
+        # the call is passed on exactly as it was made (an omitted `ignore` stays omitted: it means "ignore nothing")
+        given = kw["ignore"] if "ignore" in kw else (args[0] if args else [])
+        rec = {"hard": [list(c) for c in wcnf.hard], "soft": [list(c) for c in wcnf.soft], "ignore": list(given),
                "nf": {k: [list(c) for c in v] for k, v in self.epistemic_state["nf_cnf_dict"].items()}, "answers": []}
         cur = {"rec": rec}
 
@@ -69,7 +71,7 @@ def _mcs_worker(args):
 
         RC2.compute = compute
         try:
-            res = orig(self, wcnf, ignore=ignore, deadline=deadline)
+            res = orig(self, wcnf, *args, **kw)
         finally:
             RC2.compute = orig_compute
         rec["result"] = [sorted(x) for x in res]
